@@ -31,8 +31,10 @@
      * constraints_exact_partial: constraints_exact under the same side conditions and coverage as
        interp_sound_partial (without them the script does not even accept).
      * constraints_genuine_partial: every constraint yielded holds, with no side condition at all.
-   interp_complete is checked per run by the oracle (tools/props/c13.py), not proved. *)
-From Verif Require Import Exec ExecTrace Ser Ast Types TypeCheck InterpModel InterpRefine InterpSound InterpRefuted InterpMain InterpPolicy InterpGenuine.
+     * interp_complete_partial: every entry of the specification's satisfaction table is accepted
+       (multisig leaves excepted); that the satisfier's output is a table entry is C01's tie.
+   Each clause is additionally checked per run by the oracle (tools/props/c13.py). *)
+From Verif Require Import Exec ExecTrace Ser Ast Types TypeCheck SatSpec TheoremA InterpModel InterpRefine InterpSound InterpRefuted InterpMain InterpPolicy InterpGenuine.
 Local Open Scope N_scope.
 
 Theorem interp_is_recursive :
@@ -91,6 +93,23 @@ Theorem constraints_genuine_partial :
     end.
 Proof. exact interp_constraints_genuine. Qed.
 Print Assumptions constraints_genuine_partial.
+
+(* interp_complete, on the specification's satisfaction table (coq/Ms/SatSpec.v: the entries the
+   library's satisfier answers from, C01/C02): every table satisfaction of a well-typed B script
+   is accepted.  Stack order: a table witness has its head on top, the interpreter is given the
+   items bottom first.  [assets_fit]: the caller's assets are genuine w.r.t. the environment
+   (C01's [assets_ok], which includes that the lock times held are met by the transaction), no
+   signature or key is the one-byte string 01, the script's keys parse.  Multisig leaves and
+   raw_pk_h excluded ([no_multi], as in C01).  The link "what get_satisfaction returns is a table
+   entry" is the per-run model tie of C01; per run C13 also checks completeness directly. *)
+Theorem interp_complete_partial :
+  forall (e : env) (ke : keyenv) (kp : bytes -> bool) (A : assets),
+    num_facts -> assets_fit e ke kp A ->
+    forall (m : ms) (t : ty) (w : wit),
+      type_of m = ROk t -> c_base (t_corr t) = BB -> wf e ke m -> no_multi m ->
+      In w (all_sat ke A m) -> exists cs, interp e ke kp m (astack_of_items (rev w)) = IAccept cs.
+Proof. exact interp_complete_sat. Qed.
+Print Assumptions interp_complete_partial.
 
 (* finding (DESIGN 10-h): evaluate_after ignores BIP65's "nSequence must not be final" *)
 Theorem interp_sound_refuted :
